@@ -20,6 +20,17 @@ CLAIMED = {
         "covered by composition of the per-node obligations, not executed). One known finding: nested operator expressions lose their parentheses "
         "(`(a + b) * c` -> `a + b * c`), recorded in known_findings.json; any other mis-grouping or operand/operator mix-up is still reported.",
    ref="DESIGN.md section 0.5, C01"),
+ "C02": dict(
+   cat="model_checking", tech="enum-level symbolic execution of rustc MIR + SMT (z3): the checker's and the lowering pass's rule bodies for `name = value` against one documented rule; accepted programs generated natively",
+   text="Solver-based, ONE mechanism of the property (agreement of the type checker with code generation on assignments): TypeChecker::check_assignment and the Assignment arm "
+        "of AstLowering are executed symbolically (scope chains of 0..=2 scopes, every binding kind, symbol-table lookups as arbitrary answers) and each is decided against the "
+        "one documented rule (search the whole scope chain; immutable -> error; mutable -> re-assignment; unbound -> new binding). If both follow it, every assignment the checker "
+        "accepts is one lowering accepts; where one deviates, the programs of the deviating class are type-checked and generated through the public API - accepted by `incan "
+        "--check` but refused by code generation is the violation.",
+   note="Kernel-only: rustc compiling the generated project (the larger half of the property), every other construct, and multi-file programs are NOT covered - the oracle for "
+        "those is rustc itself, which neither engine encodes. One known finding (known_findings.json): re-assigning an immutable binding of an enclosing scope from a nested "
+        "block is accepted by the checker and fails in code generation; it shares its root cause with the C03 finding and cannot be repaired without editing a pinned snapshot.",
+   ref="DESIGN.md section 0.7, C02"),
  "C03": dict(
    cat="model_checking", tech="enum-level symbolic execution of rustc MIR + SMT (z3): rule bodies of the type checker with the symbol table's queries as uninterpreted calls and names as symbolic strings",
    text="Solver-based, EIGHT rule bodies of the property: (e) names and returns (check_ident, check_return): a name found by no scope is reported once as unknown and typed Unknown, a found "
@@ -212,7 +223,6 @@ CLAIMED = {
 }
 
 NA = {
- "C02": "the oracle is rustc (type and borrow checking of the generated project): neither engine can encode it - E2-X decides WHICH tokens each emission path writes (C01) and syn whether they parse, but 'compiles' for every accepted program needs rustc's own semantics; the per-path token classes that are decided are claimed under C01, not here",
  "C08": "needs formatter -> lexer -> parser on symbolic ASTs; measured: formatter alone on a one-function AST > 25 min, round trip on a 1-char literal > 19 min",
  "C09": "same pipeline twice; --check/--diff not writing files is file-system behaviour with no encodable unit",
  "C10": "needs two lexer runs on symbolic text: under Kani one run on 3 symbolic layout characters does not finish (measured: 20+ min, 6 GB, also with the token vector logged); the MIR executor (E2-X) has no model of strings / char iterators with positions, which is all the lexer's INDENT/DEDENT synthesis consists of",
@@ -233,7 +243,7 @@ m = {
  "engines": [
    {"name": "E1 kani", "path": "kani/", "serves_properties": [c for c in ("C01", "C05", "C07", "C11", "C13", "C14", "C19") if c in claimed],
     "kind_free_text": "Kani 0.68 / CBMC 6.11 proof harnesses in an external crate with path dependencies on /repo; counterexamples replayed by replay/ (same harness bodies, native, dev+release)"},
-   {"name": "E2 mirsmt", "path": "mirsmt/", "serves_properties": [c for c in ("C01", "C03", "C04", "C05", "C06", "C07", "C08", "C09", "C11", "C12", "C13", "C14", "C15", "C16", "C17") if c in claimed],
+   {"name": "E2 mirsmt", "path": "mirsmt/", "serves_properties": [c for c in ("C01", "C03", "C04", "C05", "C06", "C07", "C02", "C08", "C09", "C11", "C12", "C13", "C14", "C15", "C16", "C17") if c in claimed],
     "kind_free_text": "own symbolic executor over rustc's -Zunpretty=mir dump of the working tree, emitting SMT-LIB for cvc5 1.0 / z3 4.8.12"},
  ],
  "checks": [],
@@ -249,7 +259,7 @@ for pid in sorted(CLAIMED):
             "thorough_cmd": f"./check {pid} --tier thorough",
             "evidence_file": f"/verif/evidence/{pid}.json",
             "replay_cmd_template": f"./check {pid} --replay {{path}}",
-            "engine": {"C04": "E2 mirsmt + E1 kani", "C05": "E1 kani + E2 mirsmt", "C06": "E2 mirsmt + E1 kani", "C01": "E2 mirsmt + E1 kani", "C07": "E2 mirsmt + E1 kani", "C13": "E1 kani + E2 mirsmt", "C11": "E1 kani + E2 mirsmt", "C14": "E1 kani + E2 mirsmt", "C17": "E2 mirsmt", "C03": "E2 mirsmt", "C08": "E2 mirsmt", "C09": "E2 mirsmt", "C12": "E2 mirsmt", "C15": "E2 mirsmt", "C16": "E2 mirsmt"}.get(pid, "E1 kani"),
+            "engine": {"C04": "E2 mirsmt + E1 kani", "C05": "E1 kani + E2 mirsmt", "C06": "E2 mirsmt + E1 kani", "C01": "E2 mirsmt + E1 kani", "C07": "E2 mirsmt + E1 kani", "C13": "E1 kani + E2 mirsmt", "C11": "E1 kani + E2 mirsmt", "C14": "E1 kani + E2 mirsmt", "C17": "E2 mirsmt", "C03": "E2 mirsmt", "C08": "E2 mirsmt", "C09": "E2 mirsmt", "C12": "E2 mirsmt", "C15": "E2 mirsmt", "C16": "E2 mirsmt", "C02": "E2 mirsmt"}.get(pid, "E1 kani"),
             "level_claimed": {"category": c["cat"], "text": c["text"], "design_ref": c["ref"]},
             "level_note": c["note"],
             "technique": c["tech"],
